@@ -138,11 +138,14 @@ impl RunReport {
             *self.classes.entry(k).or_insert(0) += v;
         }
         for mut s in d.samples {
+            // at most one sample per (case class, inner-type family), so that samples show the spread
             let class = s.get("class").and_then(|c| c.as_str()).unwrap_or("").to_string();
-            let have = self.samples.iter().filter(|x| x.get("class").and_then(|c| c.as_str()) == Some(class.as_str())).count();
-            if have < 2 && self.samples.len() < 40 {
+            let fam = family_of(decl_text);
+            let dup = self.samples.iter().any(|x| x.get("class").and_then(|c| c.as_str()) == Some(class.as_str()) && x.get("family").and_then(|c| c.as_str()) == Some(fam));
+            if !dup && self.samples.len() < 48 {
                 if let Some(o) = s.as_object_mut() {
                     o.insert("decl".into(), Value::String(decl_text.to_string()));
+                    o.insert("family".into(), Value::String(fam.to_string()));
                 }
                 self.samples.push(s);
             }
@@ -154,5 +157,18 @@ impl RunReport {
                 self.notes.push(format!("{}: {}", d.id, n));
             }
         }
+    }
+}
+
+pub fn family_of(decl_text: &str) -> &'static str {
+    let tail = decl_text.rsplit("struct").next().unwrap_or("");
+    if tail.contains("(String)") {
+        "string"
+    } else if tail.contains("(f32)") || tail.contains("(f64)") {
+        "float"
+    } else if tail.contains("Vec<") || tail.contains("Point") || tail.contains("<T") {
+        "other"
+    } else {
+        "integer"
     }
 }
